@@ -4,8 +4,8 @@ from vlib import *  # noqa
 
 PROP_FILES = ["Paths/Properties_C08.v"]
 MANIFEST = dict(
-    technique="Coq proof that path normalisation collapses every spelling of the scan root (none, `.`, `./`, relative sub-directory, `./sub`, absolute, absolute sub-directory) onto the project-relative path, hence any verdict that reads paths only through normalisation is spelling-invariant; tie = the normaliser model run against the real normalize_for_matching, plus a metamorphic CLI run (same project, configuration and baseline under every pair of spellings)",
-    text="Theorems C08_norm_collapses (for every project-relative path and every spelling of a root that contains it, normalising the walked path yields the project-relative path), C08_invariant_through_norm (any site function of the normalised path gives the same answer under all spellings) and C08_baseline_key_invariant hold for all paths (unbounded). The check then establishes on the real code that every pattern family (scanner.exclude, content.exclude, content.rules, structure rule limits, placement scopes, sibling scopes, count_exclude) and the baseline keys behave as functions of the normalised path: generated projects with root-anchored and **/-prefixed patterns are run under every spelling, with and without a baseline written under another spelling, and the per-path statuses / limits / counts are compared.",
+    technique="Coq proof that path normalisation collapses every spelling of the scan root (any string whose components name the root: none, `.`, `./`, `sub`, `sub/`, `sub//`, `./sub/.`, `.\\sub`, absolute, absolute with stray separators) onto the project-relative path, hence any verdict that reads paths only through normalisation is spelling-invariant; tie = the normaliser model run against the real normalize_for_matching, plus a metamorphic CLI run (same project, configuration and baseline under every pair of spellings)",
+    text="Theorems C08_norm_collapses_relative / C08_norm_collapses_absolute (for every entry and EVERY string spelling a root that contains it -- stray, repeated and trailing separators, backslashes and dot components included -- normalising the walked path yields the project-relative path), C08_key_fixed_point, C08_invariant_through_norm (any site function of the normalised path gives the same answer under all spellings) and C08_baseline_key_invariant hold for all paths (unbounded). The check then establishes on the real code that every pattern family (scanner.exclude, content.exclude, content.rules, structure rule limits, placement scopes, sibling scopes, count_exclude) and the baseline keys behave as functions of the normalised path: generated projects with root-anchored and **/-prefixed patterns are run under every spelling, with and without a baseline written under another spelling, and the per-path statuses / limits / counts are compared.",
     note="Trusted: Coq kernel, extraction, harness sgv-paths; globset itself is not modelled (the theorem is over an arbitrary match function of the normalised path).",
     ref="5 (C08)")
 
@@ -71,13 +71,15 @@ def make_config(rng, anchored):
     return "\n".join(t) + "\n", fam
 
 
-SPELLINGS = ["noarg", "dot", "dotslash", "abs"]
-SUB_SPELLINGS = ["rel", "dotrel", "abssub"]
+SPELLINGS = ["noarg", "dot", "dotslash", "abs", "dotslashslash", "absslash"]
+SUB_SPELLINGS = ["rel", "dotrel", "abssub", "relslash", "dotrelslash", "abssubslash", "relslashdot", "relslashslash", "absslashslashsub"]
 
 
 def args_for(sp, proj, sub="src"):
-    return {"noarg": [], "dot": ["."], "dotslash": ["./"], "abs": [proj],
-            "rel": [sub], "dotrel": ["./" + sub], "abssub": [os.path.join(proj, sub)]}[sp]
+    return {"noarg": [], "dot": ["."], "dotslash": ["./"], "abs": [proj], "dotslashslash": [".//"], "absslash": [proj + "/"],
+            "rel": [sub], "dotrel": ["./" + sub], "abssub": [os.path.join(proj, sub)],
+            "relslash": [sub + "/"], "dotrelslash": ["./" + sub + "/"], "abssubslash": [os.path.join(proj, sub) + "/"],
+            "relslashdot": [sub + "/."], "relslashslash": [sub + "//"], "absslashslashsub": [proj + "//" + sub]}[sp]
 
 
 def canon_path(p, proj):
@@ -86,9 +88,9 @@ def canon_path(p, proj):
         p = p[len(proj) + 1:]
     elif p == proj:
         p = "."
-    while p.startswith("./"):
-        p = p[2:]
-    return p or "."
+    # the project-relative form: components without empty and dot pieces
+    comps = [c for c in p.split("/") if c not in ("", ".")]
+    return ("/" if p.startswith("/") else "") + "/".join(comps) or "."
 
 
 def run_check(sb, exe, sp, extra=(), sub="src"):
@@ -190,7 +192,7 @@ def run(ctx):
     ctx.cov["traces_validated_against_impl"] = ctx.cov.get("norm_cases", 0) - norm_mism
     ctx.cov["rule"] = ("generated projects (src, src/gen, src/util, vendor, tests, docs) x configurations with root-anchored or **/-prefixed patterns in every family "
                        "(scanner.exclude, content.exclude, content.rules, structure limit scopes, placement scopes, sibling scopes, count_exclude); each run under the "
-                       "spellings none / . / ./ / absolute and src / ./src / absolute src, plus a baseline written under a random spelling and read under all; "
+                       "spellings none / . / ./ / .// / absolute / absolute+slash and src / ./src / src/ / ./src/ / src/. / src// / absolute src (with and without trailing or doubled separators), plus a baseline written under a random spelling and read under all; "
                        "results compared after mapping paths to project-relative form; non-trivial = distinct project+configuration with at least one non-passed result")
     ctx.cov["input_distribution"] = hist
     ctx.cov["trusted_base"] = TRUSTED_COMMON + ["globset matching is not modelled: the theorems quantify over an arbitrary match function of the normalised path"]
@@ -216,9 +218,12 @@ def norm_correspondence(ctx, impl):
     for _ in range(3000 if ctx.tier == "quick" else 40000):
         k = rng.randint(0, 4)
         body = "/".join(rng.choice(comps) for _ in range(k))
-        pre = rng.choice(["", "./", ".\\", "././", cwd + "/", cwd, cwd + "\\", "/other/", cwd[:-1], cwd + "2/", ".", "./.", ".//"])
-        cases.append(pre + body)
-    cases += [".", "./", "", "./.", cwd, cwd + "/", cwd + "/src/a.rs", "./src/a.rs", "src/a.rs", ".\\src\\a.rs"]
+        pre = rng.choice(["", "./", ".\\", "././", cwd + "/", cwd, cwd + "\\", "/other/", cwd[:-1], cwd + "2/", ".", "./.", ".//",
+                          cwd + "//", cwd + "/./", "/", "//", "\\", cwd.replace("/", "//") + "/"])
+        suf = rng.choice(["", "", "", "/", "//", "/.", "\\", "/./", "\\."])
+        cases.append(pre + body + suf)
+    cases += [".", "./", "", "./.", cwd, cwd + "/", cwd + "/src/a.rs", "./src/a.rs", "src/a.rs", ".\\src\\a.rs",
+              "src/", "src//", "src/.", "./src/", ".//src", cwd + "//src/", "/", "//", "\\", "a\\", "..", "../x/", "a/../b"]
     enc = lambda s: ",".join(str(ord(c)) for c in s) if s else "-"
     lines = ["norm\t%s\t%s" % (enc(cwd), enc(c)) for c in cases]
     io, _, _ = run_lines(impl, lines)
